@@ -1,7 +1,7 @@
 SPECIFICATION Spec
 CONSTANTS
   Files = {1, 2}
-  Payloads <- Pay2f
+  Payloads <- Pay3
   Deadlines = {1, 3}
   MinNow = 2
   MaxNow = 3
